@@ -665,6 +665,19 @@ def elem_ops():
         ('b_isub', 'xb', lambda x, y, c: isub(x, y, c), 'sub'),
         ('b_imul', 'xb', lambda x, y, c: imul(x, y, c), 'mul'),
         ('b_idiv', 'xb/', lambda x, y, c: idiv(x, y, c), 'div'),
+        # power-space broadcasting where the broadcast operand is one of the element's OWN
+        # parts (x *= x[0]): every part must be combined with the ORIGINAL value of that part
+        ('bp_add', 'xp', lambda x, y, c: x + y, 'add'),
+        ('bp_radd', 'xp', lambda x, y, c: y + x, 'add'),
+        ('bp_sub', 'xp', lambda x, y, c: x - y, 'sub'),
+        ('bp_rsub', 'xp', lambda x, y, c: y - x, 'rsub'),
+        ('bp_mul', 'xp', lambda x, y, c: x * y, 'mul'),
+        ('bp_div', 'xp/', lambda x, y, c: x / y, 'div'),
+        ('bp_rdiv', 'xp/', lambda x, y, c: y / x, 'rdiv'),
+        ('bp_iadd', 'xp', lambda x, y, c: iadd(x, y, c), 'add'),
+        ('bp_isub', 'xp', lambda x, y, c: isub(x, y, c), 'sub'),
+        ('bp_imul', 'xp', lambda x, y, c: imul(x, y, c), 'mul'),
+        ('bp_idiv', 'xp/', lambda x, y, c: idiv(x, y, c), 'div'),
         ('zero', '0', lambda x, y, c: x.space.zero(), 'zero'),
         ('one', '0', lambda x, y, c: x.space.one(), 'one'),
     ]
@@ -779,15 +792,20 @@ def elem_cases(ctx):
                 pass  # true division is not closed on integer spaces (NumPy refuses)
             for rep in range(reps):
                 need_nz_y = kind in ('xy/', 'xx/', 'xl/', 'xb/')
-                need_nz_x = kind in ('x/c', 'xx/', 'x/l', 'x/b', 'x/')
-                bcast = kind in ('xb', 'xb/', 'x/b')
+                need_nz_x = kind in ('x/c', 'xx/', 'x/l', 'x/b', 'x/', 'xp/')
+                bcast = kind in ('xb', 'xb/', 'x/b', 'xp', 'xp/')
+                own = kind in ('xp', 'xp/')
                 if bcast:
                     import odl
                     if not (isinstance(space, odl.ProductSpace) and space.is_power_space and
                             not isinstance(space[0], odl.ProductSpace)):
                         continue
                 x = rand_elem(space, rng, nonzero=need_nz_x, tiny=('pow' in name and not need_nz_x))
-                if bcast:
+                if own:
+                    if len(space) < 2:
+                        continue
+                    y = x[rng.choice([0, len(space) - 1, rng.randrange(len(space))])]
+                elif bcast:
                     y = rand_elem(space[0], rng, nonzero=need_nz_y)
                 else:
                     y = x if kind.startswith('xx') else rand_elem(space, rng, nonzero=need_nz_y)
@@ -806,12 +824,13 @@ def elem_cases(ctx):
 def run_elem_case(c):
     x, y, space = c['x'], c['y'], c['sp']
     X = exact_list(flat(x))
-    bcast = c['okind'] in ('xb', 'xb/', 'x/b')
+    bcast = c['okind'] in ('xb', 'xb/', 'x/b', 'xp', 'xp/')
+    own = c['okind'] in ('xp', 'xp/')
     Y = exact_list(np.tile(flat(y), len(space))) if bcast else exact_list(flat(y))
     fc, fd = fval(c['c']), fval(c['d'])
     xs, ys = x.copy(), y.copy()
     in_place = c['op'].startswith('i') or c['op'].startswith('b_i') or \
-        c['op'] in ('assign', 'set_zero')
+        c['op'].startswith('bp_i') or c['op'] in ('assign', 'set_zero')
     try:
         if c['op'] == 'sp_lincomb':
             res = space.lincomb(c['c'], x, c['d'], y)
@@ -843,7 +862,10 @@ def run_elem_case(c):
             problems.append('broadcast in-place operator did not update the original object')
         if not in_place and exact_list(flat(x)) != X:
             problems.append('left operand modified by an out-of-place operation')
-        if y is not x and exact_list(np.tile(flat(y), len(space)) if bcast else flat(y)) != Y:
+        if y is not x and not (own and in_place) and \
+                exact_list(np.tile(flat(y), len(space)) if bcast else flat(y)) != Y:
+            # (an own part used as the broadcast operand of an in-place operation is part of
+            # the output and legitimately changes)
             problems.append('right operand modified')
     nontrivial = any(v != (0, 0) for v in exp)
     return spec_line(c['spec'], X, Y, fc, fd), status, R, problems, nontrivial
